@@ -356,7 +356,8 @@ impl<'a> DocGen<'a> {
                 } else {
                     self.inline_run(2, depth + 1)
                 };
-                out.push(El::with("sup", inner).node());
+                let e = self.deco(El::with("sup", inner));
+                out.push(e.node());
                 i += 1;
             } else if self.p.br && r < 36 && !out.is_empty() {
                 out.push(El::new("br").node());
